@@ -175,6 +175,13 @@ deriving Repr, DecidableEq
 def writeOut {β} (ops : BodyOps β) (r : Resp β) : WriteOut :=
   ⟨r.hdr.get keyCL, ops.len r.payload.content⟩
 
+/-- Body bytes net/http puts on the wire for the response the mux writes: none when the status forbids a body or
+when the request object *the server holds* says HEAD. That object is the one the filters edit: after a
+RequestAdaptor `method:` section it carries the adapted method (`Request.SetMethod` writes `Std().Method`). -/
+def bodyOnWire {β} (ops : BodyOps β) (serverSeesMethod : String) (r : Resp β) : Nat :=
+  if serverSeesMethod == "HEAD" || r.status == 204 || r.status == 304 || decide (r.status < 200) then 0
+  else ops.len r.payload.content
+
 /-- The client-visible framing predicate: no declared length, or exactly the number of
 body bytes written. -/
 def WellFramed {β} (ops : BodyOps β) (r : Resp β) : Prop :=
